@@ -675,6 +675,12 @@ void Sandbox::observe_versions()
 			std::string top, sub;
 			split_rel(kv.first, top, sub);
 			versions.put(d.name, sub, kv.second.data, kv.second.mtime_s, kv.second.mtime_ns);
+			// a file the tool itself renamed to <name>.unrecoverable keeps inode and stamp: what the harness knew under
+			// the old name (e.g. the pristine version of a silently damaged file) is possible content of the new name too
+			if (ends_with(sub, ".unrecoverable")) {
+				const auto* v = versions.all(d.name, sub.substr(0, sub.size() - 14), kv.second.data.size(), kv.second.mtime_s, kv.second.mtime_ns);
+				if (v) { auto copy = *v; for (auto& e : copy) versions.put(d.name, sub, *e, kv.second.mtime_s, kv.second.mtime_ns); }
+			}
 		}
 	}
 }
